@@ -260,7 +260,9 @@ pub fn read_assertion_diag(rendered: &str, r: &Rendered, entry: usize, comms: &[
             if cols(want) > MAX_LINE_COLS {
                 return Diag::Wide;
             }
-            if shown.trim_end() != want.trim_end() {
+            // annotate-snippets shows a tab as four blanks (a header may end in one; the marked
+            // posting lines have none, so columns map to bytes as they are)
+            if shown.trim_end() != want.replace('\t', "    ").trim_end() {
                 return Diag::Unreadable(format!("line {} is shown as {:?}", n, shown));
             }
             if first_line == 0 {
